@@ -305,10 +305,24 @@ class _BlockBindingCollector(cst.CSTVisitor):
 
 
 class _LocalRenamer(cst.CSTTransformer):
-    """Renames bare ``Name`` leaves according to a mapping."""
+    """Renames bare ``Name`` leaves according to a mapping.
+
+    Only names that refer to variables are renamed: the attribute in ``obj.attr`` and
+    the keyword in ``f(keyword=value)`` keep their spelling.
+    """
 
     def __init__(self, rename: dict[str, str]) -> None:
         self._rename = rename
+
+    def leave_Attribute(  # noqa: N802
+        self, original_node: cst.Attribute, updated_node: cst.Attribute
+    ) -> cst.Attribute:
+        return updated_node.with_changes(attr=original_node.attr)
+
+    def leave_Arg(  # noqa: N802
+        self, original_node: cst.Arg, updated_node: cst.Arg
+    ) -> cst.Arg:
+        return updated_node.with_changes(keyword=original_node.keyword)
 
     def leave_Name(  # noqa: N802
         self, original_node: cst.Name, updated_node: cst.Name
